@@ -65,13 +65,12 @@ Print Assumptions C08_cached_uses_are_occurrences.
 
 (* the filter of SignalUse::get_constraints decides "the constraint statement
    mentions the signal".
-   Fourth audit: `stmt_mentions` (Spec.SigAssignSpec.same_use) is EQUALITY of name and
-   access, the Rust `==` on the access vectors.  For whole-array and partially indexed
-   references the oracle of the check reads the property text more widely (a constraint
-   on an element / sub-array of the assigned array, or on an array containing the
-   assigned signal, mentions it: prefix-compatible accesses); that reading is not stated
-   here, and on such references this theorem and C08_sigassign_bijection speak about the
-   narrower relation (design.d/C08.md, "Fourth audit"). *)
+   Fourth audit (/repo 4f017e8 + 96648cc): `stmt_mentions` reads "mentions" as same name
+   and PREFIX-COMPATIBLE accesses (Spec.SigAssignSpec.same_use: equal, an element /
+   sub-array of the assigned array, or an array containing the assigned signal); a
+   constraint ASSIGNMENT `v[t] <== e` (Update node) mentions its target, what e and the
+   index expressions of t mention - not `v` as a whole (update_mentions).  The old
+   reading "same name and syntactically equal access" is withdrawn. *)
 Theorem C08_constraint_filter_decides_mentions : forall ds v acc s,
   stmt_mentions_b ds v acc s = true <-> stmt_mentions ds s v acc.
 Proof. exact stmt_mentions_b_spec. Qed.
